@@ -456,7 +456,10 @@ def native_cfrc_probe(G, L, seed, max_steps=100, tries=3):
     return best
 
 
-def run_env(name, gym_id, steps, resets, seed, lerax_kwargs=None, gym_kwargs=None, tag=None, native=True):
+def run_env(name, gym_id, steps, resets, seed, lerax_kwargs=None, gym_kwargs=None, tag=None, native=True, post_rne=None):
+    """post_rne: reuse the finding of an earlier native probe of the same environment class (does lerax's transition() fill
+    cfrc_ext?) instead of probing again; without it a non-probed run would rebuild states WITHOUT contact forces and report the
+    harness's own omission as a difference."""
     t0 = time.time()
     out = {"compile_s": 0.0, "wall_s": 0.0, "n_steps": 0, "n_terminated": 0, "n_resets": 0,
            "n_skipped_near_threshold": 0, "components": [], "only_lerax_keys": [], "only_gym_keys": [],
@@ -464,7 +467,7 @@ def run_env(name, gym_id, steps, resets, seed, lerax_kwargs=None, gym_kwargs=Non
     book = Book(tag or name)
     try:
         G = GymSide(gym_id, **(gym_kwargs or {}))
-        L = LeraxSide(name, **(lerax_kwargs or {}))
+        L = LeraxSide(name, post_rne=bool(post_rne), **(lerax_kwargs or {}))
         if name in CONTACT_REWARD_KEY and native:
             tn = time.time()
             pr = native_cfrc_probe(G, L, seed)
@@ -486,6 +489,7 @@ def run_env(name, gym_id, steps, resets, seed, lerax_kwargs=None, gym_kwargs=Non
             else:
                 out["notes"].append("lerax's real transition() was run once from a Gymnasium contact state: cfrc_ext stayed exactly 0 "
                                     f"(Gymnasium max|cfrc_ext| in that state: {pr[1]:.4g})")
+        out["post_rne"] = bool(L.post_rne)
         genv, lenv = G.env, L.env
         # ---------------- static sanity: same model dimensions, frame skip, dt
         ctx0 = {"qpos": None, "qvel": None, "action": None}
@@ -706,7 +710,8 @@ def main():
             for i, kw in enumerate(OPTION_CASES.get(name, [])):
                 tag = name + "(" + ",".join(f"{k}={v}" for k, v in kw.items()) + ")"
                 log(f"{tag}: start")
-                r = run_env(name, ENVS[name], max(10, a.steps // 2), 1, a.seed + 1 + i, lerax_kwargs=kw, gym_kwargs=kw, tag=tag, native=False)
+                r = run_env(name, ENVS[name], max(10, a.steps // 2), 1, a.seed + 1 + i, lerax_kwargs=kw, gym_kwargs=kw, tag=tag, native=False,
+                            post_rne=res["envs"][name].get("post_rne"))
                 res["envs"][tag] = r
                 bad = [f"{c['phase']}:{c['name']}" for c in r["components"] if not c["ok"]]
                 log(f"{tag}: wall {r['wall_s']}s error={bool(r['error'])} failing={bad}")
